@@ -85,9 +85,29 @@ def _work_backoff(task) -> core.Part:
     return p
 
 
+def _work_backoff_runs(task) -> core.Part:
+    """Run-length families beyond the BFS depth: f^k, f^k r, f^k r f^j, f^k r f^m r f^j for k up to 200 (the statement
+    quantifies over sequences up to length 200; a saturation counter or overflow guard shows only after long runs)."""
+    ks, = task
+    p = core.Part()
+    some = (1, 2, 3, 59, 60, 61, 3600)
+    for k in ks:
+        fam = ["f" * k, "f" * k + "r"] + ["f" * k + "r" + "f" * j for j in (1, 2, 3, 7)] + ["f" * k + "r" + "f" * 5 + "r" + "f" * j for j in (1, 2)] + ["r" * 3 + "f" * k]
+        for seq in fam:
+            e = backoff_errors(seq, some if k > 16 else range(1, 3601))
+            p.add("sequences")
+            p.add("evaluations", len(some))
+            if e:
+                short = seq if len(seq) <= 24 else f"f^{k}" + seq[k:]
+                p.viol("backoff", f"backoff:{short}", e[0].replace(seq, short), {"kind": "backoff", "seq": seq}, size=len(seq))
+    return p
+
+
 # ---- manager -----------------------------------------------------------------------------------------------------
 
-def pacing_errors(script, thr, slp, maxd, horizon=600.0) -> list[str]:
+def pacing_errors(script, thr, slp, maxd, horizon=None) -> list[str]:
+    if horizon is None:
+        horizon = 600.0 + 61.0 * len(script)
     sc = vloop.Scenario([(k, 0, life) for k, life in script] + [("S", 0, None)], threshold=thr, sleep_sec=slp, max_delay=maxd, horizon=horizon).run()
     log = [(e[0], e[1], e[2]) for e in sc.log]
     errs = list(dict.fromkeys(sc.problems))
@@ -158,9 +178,11 @@ def main(run: core.Run) -> int:
     run.rule = ("strategy object: BFS over snapshots of the real ExponentialBackOff under {failure, reset} to depth 14 (all 2^15-1 sequences mapped onto the visited states), every max_delay 1..3600 evaluated in every state; "
                 "manager: every script of attempt outcomes {fail, succeed and lose the connection after 1/3/10 s} up to the bound x 5 (threshold, sleep, max_delay) settings on the virtual-time loop; non-trivial = distinct (script, setting) runs")
     run.merge(par.pmap(_work_backoff, [(14,)], seed=run.seed))
+    run.merge(par.pmap(_work_backoff_runs, [(list(range(1, 201))[i::16],) for i in range(16)], seed=run.seed))
     L = 6 if q else 8
     scripts = [s for n in range(1, L + 1) for s in itertools.product(OUTS, repeat=n)]
     # long failure runs to reach the 60 s cap
+    scripts += [tuple([("F", None)] * k + [("S", 1)] + [("F", None)] * 2) for k in (30, 64, 65, 70, 100)]  # long outage, reconnect, failures again
     scripts += [tuple([("F", None)] * k) for k in (8, 9, 10)] + [tuple([("F", None)] * 7 + [("S", 1)] + [("F", None)] * 2)]
     batches = [(scripts[i::64], SETTINGS) for i in range(64)]
     run.log(f"{len(scripts)} scripts x {len(SETTINGS)} settings")
@@ -169,7 +191,7 @@ def main(run: core.Run) -> int:
     tot.sample({"backoff_sequence": "ffrfff", "expected_delay": "min(4, max_delay) for every max_delay in 1..3600"})
     tot.sample({"script": [["F", None], ["F", None], ["S", 1], ["S", 1]], "setting": {"threshold": 5, "sleep": 5, "max_delay": 60},
                 "expected": "attempt 2 at +1 s, attempt 3 at +2 s, attempt 4 right after the first loss, attempt 5 >= 5 s after the second loss"})
-    run.bounds = {"backoff_depth": 14, "max_delay": "1..3600 (complete)", "manager_script_length": L, "settings": [list(s) for s in SETTINGS]}
+    run.bounds = {"backoff_depth": 14, "backoff_run_lengths": "f^k, f^k r, f^k r f^j, f^k r f^5 r f^j for k = 1..200", "max_delay": "1..3600 (complete)", "manager_script_length": L, "settings": [list(s) for s in SETTINGS]}
     run.assumptions = ["han.meter_connection.datetime is substituted by a shim reading the virtual clock (if that name disappears, loss-timing clauses are skipped)",
                        "scheduling slack: 1e-6 virtual seconds"]
     ex = tot.c.get("executions", 0) + tot.c.get("sequences", 0)
